@@ -1,25 +1,32 @@
 // c07_hist.cpp - the table lookups are functions of their argument only: every call history of length 3 over the
 // enumerators of ONE unit type (and, for ConsistentUnit, over the unit systems) returns what a single call returns.
-// Exhaustive over all N^3 (resp. S^3) sequences.   -DVF_HDR=... -DVF_E=... -DVF_ENAME=...
+// Exhaustive over all N^3 (resp. S^3) sequences. `threads [new-thread-first]`: the same table asked from different threads.   -DVF_HDR=... -DVF_E=... -DVF_ENAME=...
 #include VF_HDR
+
+#include <thread>
 
 #include "reflect.hpp"
 #include "vf.hpp"
 using E = VF_E;
 
+// The three results of a history are bound the way a caller may bind them - `const auto& r = Lookup(x);` - and are all
+// read AFTER the third call: a result must not change because a later call was made (on this tree the functions return by
+// value, the binding extends a temporary's life; a function returning a reference to shared storage fails here).
 template <class R, class F, class ARGS, class SHOW>
 void histories(const char* fname, const ARGS& args, F f, SHOW show) {
   const size_t n = args.size();
   std::vector<R> ref;
-  for (size_t i = 0; i < n; i++) ref.push_back(f(args[i]));  // one call per argument, in declaration order
+  for (size_t i = 0; i < n; i++) ref.push_back(R(f(args[i])));  // one call per argument, in declaration order
   long long bad = 0;
   for (size_t a = 0; a < n; a++)
     for (size_t b = 0; b < n; b++)
       for (size_t c = 0; c < n; c++) {
-        const R ra = f(args[a]), rb = f(args[b]), rc = f(args[c]);
+        const auto& ra = f(args[a]);
+        const auto& rb = f(args[b]);
+        const auto& rc = f(args[c]);
         vf::stat("histories");
         vf::stat("transitions", 3);
-        if (!(ra == ref[a]) || !(rb == ref[b]) || !(rc == ref[c])) {
+        if (!(R(ra) == ref[a]) || !(R(rb) == ref[b]) || !(R(rc) == ref[c])) {
           if (!bad++)
             vf::viol(std::string("lookup-depends-on-history|") + VF_ENAME + "|" + fname,
                      std::string("{\"function\":") + vf::jstr(fname) + ",\"history\":[" + vf::jstr(show(args[a])) + "," + vf::jstr(show(args[b])) + "," + vf::jstr(show(args[c])) + "]}");
@@ -27,7 +34,55 @@ void histories(const char* fname, const ARGS& args, F f, SHOW show) {
       }
 }
 
-int main() {
+// Every lookup of the type, as one string: what one thread sees.
+static std::string table() {
+  std::string o;
+  for (auto& e : vf::enumerators<E>()) {
+    const auto r = PhQ::RelatedUnitSystem(e.value);
+    o += std::string(PhQ::Abbreviation(e.value)) + "=" + (r.has_value() ? std::to_string((int)static_cast<int8_t>(r.value())) : std::string("-")) + ";";
+    const auto p = PhQ::ParseEnumeration<E>(PhQ::Abbreviation(e.value));
+    o += (p.has_value() ? std::to_string((int)static_cast<int8_t>(p.value())) : std::string("-")) + ";" + vf::hex(PhQ::Convert(1.0L, e.value, PhQ::Standard<E>)) + ";";
+  }
+  for (auto& s : vf::enumerators<PhQ::UnitSystem>()) o += std::to_string((int)static_cast<int8_t>(PhQ::ConsistentUnit<E>(s.value))) + "," + std::string(PhQ::Abbreviation(s.value)) + ";";
+  return o;
+}
+static std::string table_in_new_thread() {
+  std::string o;
+  std::thread t([&] { o = table(); });
+  t.join();
+  return o;
+}
+// Which thread asks must not matter either: the two orders (main first / a new thread first, decided by the argument so that
+// each order is the first use in its process) and a third asker afterwards. No concurrency: the threads run one after another.
+static void threads(bool thread_first) {
+  std::string a, b, c, d;
+  if (thread_first) {
+    a = table_in_new_thread();
+    b = table();
+  } else {
+    a = table();
+    b = table_in_new_thread();
+  }
+  c = table_in_new_thread();
+  d = table();
+  vf::stat("thread_orders");
+  vf::stat("histories", 4);
+  if (a != b || a != c || a != d) {
+    size_t i = 0;
+    const std::string& x = a != b ? b : a != c ? c : d;
+    while (i < a.size() && i < x.size() && a[i] == x[i]) i++;
+    const size_t from = a.rfind(';', i) == std::string::npos ? 0 : a.rfind(';', i) + 1;
+    vf::viol(std::string("lookup-depends-on-thread|") + VF_ENAME + "|" + (thread_first ? "new-thread-first" : "main-first"),
+             std::string("{\"order\":") + (thread_first ? "\"new thread, main, new thread, main\"" : "\"main, new thread, new thread, main\"") + ",\"first_asker_saw\":" + vf::jstr(a.substr(from, 60)) +
+                 ",\"another_asker_saw\":" + vf::jstr(x.substr(from, 60)) + "}");
+  }
+}
+
+int main(int argc, char** argv) {
+  if (argc > 1 && std::string(argv[1]) == "threads") {
+    threads(argc > 2 && std::string(argv[2]) == "new-thread-first");
+    return 0;
+  }
   const auto& ens = vf::enumerators<E>();
   const auto& sys = vf::enumerators<PhQ::UnitSystem>();
   std::vector<E> units;
@@ -44,11 +99,11 @@ int main() {
       if (e.value == s) return e.name;
     return std::string("?");
   };
-  histories<std::optional<PhQ::UnitSystem>>("RelatedUnitSystem", units, [](E u) { return PhQ::RelatedUnitSystem(u); }, uname);
-  histories<E>("ConsistentUnit", systems, [](PhQ::UnitSystem s) { return PhQ::ConsistentUnit<E>(s); }, sname);
-  histories<std::string>("Abbreviation", units, [](E u) { return std::string(PhQ::Abbreviation(u)); }, uname);
-  histories<std::optional<E>>("ParseEnumeration(Abbreviation)", units, [](E u) { return PhQ::ParseEnumeration<E>(PhQ::Abbreviation(u)); }, uname);
-  histories<long double>("Convert(1, u, standard)", units, [](E u) { return PhQ::Convert(1.0L, u, PhQ::Standard<E>); }, uname);
+  histories<std::optional<PhQ::UnitSystem>>("RelatedUnitSystem", units, [](E u) -> decltype(auto) { return PhQ::RelatedUnitSystem(u); }, uname);
+  histories<E>("ConsistentUnit", systems, [](PhQ::UnitSystem s) -> decltype(auto) { return PhQ::ConsistentUnit<E>(s); }, sname);
+  histories<std::string>("Abbreviation", units, [](E u) -> decltype(auto) { return PhQ::Abbreviation(u); }, uname);
+  histories<std::optional<E>>("ParseEnumeration(Abbreviation)", units, [](E u) -> decltype(auto) { return PhQ::ParseEnumeration<E>(PhQ::Abbreviation(u)); }, uname);
+  histories<long double>("Convert(1, u, standard)", units, [](E u) -> decltype(auto) { return PhQ::Convert(1.0L, u, PhQ::Standard<E>); }, uname);
   vf::stat("states", (long long)(units.size() * units.size()));
   if (std::string(VF_ENAME) == "Length") vf::sample("{\"unit_type\":\"Length\",\"history\":[\"RelatedUnitSystem(Millimetre)\",\"RelatedUnitSystem(Mile)\",\"RelatedUnitSystem(Mile)\"],\"expected\":\"mm-g-s-K, none, none\"}");
   return 0;
